@@ -15,7 +15,9 @@
 package yamlpc
 
 import (
+	"errors"
 	"io"
+	"reflect"
 
 	"github.com/go-openapi/runtime"
 	"gopkg.in/yaml.v3"
@@ -24,6 +26,11 @@ import (
 // YAMLConsumer creates a consumer for yaml data
 func YAMLConsumer() runtime.Consumer {
 	return runtime.ConsumerFunc(func(r io.Reader, v interface{}) error {
+		// yaml.v3 panics or silently drops the document unless it is given a non-nil pointer or map
+		if out := reflect.ValueOf(v); (out.Kind() != reflect.Ptr && out.Kind() != reflect.Map) || out.IsNil() {
+			return errors.New("YAMLConsumer requires a non-nil pointer or map destination")
+		}
+
 		dec := yaml.NewDecoder(r)
 		return dec.Decode(v)
 	})
